@@ -175,6 +175,21 @@ pub fn check_request(label: &str, method: &str, params: &Value) -> Option<String
     // … and answers the other kinds of request exactly as a session that never saw the request does
     // (not looked at when the request itself or the liveness probe already failed: one finding per class)
     let after = if what.is_some() || !alive { vec![] } else { battery(&mut s) };
+    // the end of a session: `shutdown` is a request like any other (one response), and so is whatever an editor still
+    // sends between `shutdown` and `exit`
+    let lifecycle = if what.is_some() || !alive {
+        None
+    } else {
+        let sd = s.request("shutdown", json!(null), DEADLINE);
+        let late = s.request("workspace/symbol", json!({"query": ""}), DEADLINE);
+        if sd.len() != 1 {
+            Some(format!("{}: the shutdown request afterwards gets {} responses", label, sd.len()))
+        } else if late.len() != 1 {
+            Some(format!("{}: a workspace/symbol request sent after shutdown and before exit gets {} responses", label, late.len()))
+        } else {
+            None
+        }
+    };
     let ended = s.finish();
     let isolated = {
         let base = BASELINE.get_or_init(|| {
@@ -188,6 +203,7 @@ pub fn check_request(label: &str, method: &str, params: &Value) -> Option<String
     };
     what.or(if !alive { Some(format!("{}: afterwards the server does not answer a formatting request correctly ({:?})", label, probe)) } else { None })
         .or(isolated)
+        .or(lifecycle)
         .or(if !ended { Some(format!("{}: the loop does not end cleanly on exit", label)) } else { None })
 }
 
